@@ -168,7 +168,7 @@ func AddStandardFilters(fd FilterDictionary) { //nolint: gocyclo
 	fd.AddFilter("append", func(s, suffix string) string {
 		return s + suffix
 	})
-	fd.AddFilter("capitalize", func(s, suffix string) string {
+	fd.AddFilter("capitalize", func(s string) string {
 		// upper-case the first character, not the first byte
 		r, n := utf8.DecodeRuneInString(s)
 		if n == 0 || r == utf8.RuneError {
@@ -176,11 +176,11 @@ func AddStandardFilters(fd FilterDictionary) { //nolint: gocyclo
 		}
 		return string(unicode.ToUpper(r)) + s[n:]
 	})
-	fd.AddFilter("downcase", func(s, suffix string) string {
+	fd.AddFilter("downcase", func(s string) string {
 		return strings.ToLower(s)
 	})
 	fd.AddFilter("escape", html.EscapeString)
-	fd.AddFilter("escape_once", func(s, suffix string) string {
+	fd.AddFilter("escape_once", func(s string) string {
 		return html.EscapeString(html.UnescapeString(s))
 	})
 	fd.AddFilter("newline_to_br", func(s string) string {
@@ -272,7 +272,7 @@ func AddStandardFilters(fd FilterDictionary) { //nolint: gocyclo
 		}
 		return s
 	})
-	fd.AddFilter("upcase", func(s, suffix string) string {
+	fd.AddFilter("upcase", func(s string) string {
 		return strings.ToUpper(s)
 	})
 	fd.AddFilter("url_encode", url.QueryEscape)
